@@ -44,13 +44,20 @@ func (h *countHook) Send(ctx context.Context, s capnp.Send) (*capnp.Answer, capn
 }
 
 // resultWithCaps builds a result struct whose pointer fields 0 and 1 hold capabilities ha and hb.
+// pathBField is the pointer field of path B: beyond 255, so that both bytes of the field index matter.
+const pathBField = 300
+
+var wrongCap countHook // sits in field 300&0xff; nothing may ever be delivered to it
+
 func resultWithCaps(ha, hb capnp.ClientHook) (capnp.Ptr, *capnp.Message) {
 	msg, seg, _ := capnp.NewMessage(capnp.SingleSegment(nil))
-	st, _ := capnp.NewRootStruct(seg, capnp.ObjectSize{PointerCount: 2})
+	st, _ := capnp.NewRootStruct(seg, capnp.ObjectSize{PointerCount: pathBField + 1})
 	ia := capnp.NewInterface(seg, msg.AddCap(capnp.NewClient(ha)))
 	ib := capnp.NewInterface(seg, msg.AddCap(capnp.NewClient(hb)))
+	iw := capnp.NewInterface(seg, msg.AddCap(capnp.NewClient(&wrongCap)))
 	st.SetPtr(0, ia.ToPtr())
-	st.SetPtr(1, ib.ToPtr())
+	st.SetPtr(pathBField, ib.ToPtr())
+	st.SetPtr(pathBField&0xff, iw.ToPtr())
 	return st.ToPtr(), msg
 }
 
@@ -77,7 +84,7 @@ func pathOps(a bool) []capnp.PipelineOp {
 	if a {
 		return []capnp.PipelineOp{{Field: 0}}
 	}
-	return []capnp.PipelineOp{{Field: 1}}
+	return []capnp.PipelineOp{{Field: pathBField}}
 }
 
 // execPromiseScript: "promise script <op,op,...>"
@@ -98,7 +105,7 @@ func execPromiseScript(script string) string {
 			case "clientA", "clientB":
 				f := p.Answer().Field(0, nil)
 				if op == "clientB" {
-					f = p.Answer().Field(1, nil)
+					f = p.Answer().Field(pathBField, nil)
 				}
 				c := f.Client()
 				if op == "clientA" {
@@ -125,6 +132,12 @@ func execPromiseScript(script string) string {
 					return "skip"
 				}
 				proxyA.SendCall(context.Background(), capnp.Send{})
+				return "-"
+			case "callproxyB":
+				if proxyB == nil {
+					return "skip"
+				}
+				proxyB.SendCall(context.Background(), capnp.Send{})
 				return "-"
 			case "fulfill":
 				if resolved {
@@ -153,7 +166,11 @@ func execPromiseScript(script string) string {
 		if res == "blocked" || res == "panic" {
 			stuck = true
 		}
-		out = append(out, op+":"+res+":c"+strconv.Itoa(int(atomic.LoadInt32(&pc.n)))+"r"+strconv.Itoa(int(atomic.LoadInt32(&ha.n))))
+		out = append(out, op+":"+res+":c"+strconv.Itoa(int(atomic.LoadInt32(&pc.n)))+"r"+strconv.Itoa(int(atomic.LoadInt32(&ha.n)+atomic.LoadInt32(&hb.n))))
+	}
+	if atomic.LoadInt32(&wrongCap.n) != 0 {
+		atomic.StoreInt32(&wrongCap.n, 0)
+		out = append(out, "delivered-to-the-wrong-capability")
 	}
 	return strings.Join(out, ";")
 }
@@ -171,7 +188,7 @@ func execPromiseJoin(t []string) string {
 			parent.Answer().Field(0, nil).Client()
 		}
 		for i := 0; i < childClients; i++ {
-			cc = append(cc, child.Answer().Field(uint16(i%2), nil).Client())
+			cc = append(cc, child.Answer().Field(uint16(i%2)*pathBField, nil).Client())
 		}
 		child.Join(parent.Answer())
 		ha, hb := &countHook{}, &countHook{}
@@ -209,7 +226,7 @@ func execPromiseStress(t []string) string {
 				for i := 0; i < n; i++ {
 					switch r.Intn(3) {
 					case 0:
-						p.Answer().Field(uint16(r.Intn(2)), nil).Client()
+						p.Answer().Field(uint16(r.Intn(2))*pathBField, nil).Client()
 					case 1:
 						atomic.AddInt32(&issued, 1)
 						p.Answer().PipelineSend(context.Background(), pathOps(true), capnp.Send{})
@@ -287,6 +304,10 @@ func execPromise(t []string) string {
 	switch {
 	case len(t) == 1 && t[0] == "proxyrace":
 		return execProxyRace()
+	case len(t) == 1 && t[0] == "joinpending":
+		return execJoinPending()
+	case len(t) == 1 && t[0] == "joinchain":
+		return execJoinChain()
 	case len(t) == 2 && t[0] == "script":
 		return execPromiseScript(t[1])
 	case len(t) == 3 && t[0] == "join":
@@ -297,11 +318,105 @@ func execPromise(t []string) string {
 	return "bad-op"
 }
 
-var promiseOps = []string{"clientA", "clientA", "clientB", "call", "callproxyA", "fulfill", "reject", "release"}
+var promiseOps = []string{"clientA", "clientA", "clientB", "call", "callproxyA", "callproxyB", "fulfill", "reject", "release"}
+
+// gateCaller is a PipelineCaller whose calls stay inside it until released.
+type gateCaller struct {
+	entered int32
+	gate    chan struct{}
+}
+
+func (c *gateCaller) PipelineSend(ctx context.Context, transform []capnp.PipelineOp, s capnp.Send) (*capnp.Answer, capnp.ReleaseFunc) {
+	atomic.AddInt32(&c.entered, 1)
+	<-c.gate
+	return capnp.ErrorAnswer(s.Method, errMark), func() {}
+}
+
+func (c *gateCaller) PipelineRecv(ctx context.Context, transform []capnp.PipelineOp, r capnp.Recv) capnp.PipelineCaller {
+	r.Reject(errMark)
+	return nil
+}
+
+func waitUntil(f func() bool) bool {
+	for i := 0; i < 4000; i++ {
+		if f() {
+			return true
+		}
+		time.Sleep(50 * time.Microsecond)
+	}
+	return false
+}
+
+// execJoinPending: B joins A's answer while A is pending resolution (A's Fulfill waits for a pipelined call that
+// is still inside A's caller).  When the call yields, A and then B resolve; B must then behave as resolved.
+func execJoinPending() string {
+	return timed(6*time.Second, func() string {
+		ga := &gateCaller{gate: make(chan struct{})}
+		a := capnp.NewPromise(capnp.Method{}, ga)
+		b := capnp.NewPromise(capnp.Method{}, &recCaller{})
+		go a.Answer().PipelineSend(context.Background(), pathOps(true), capnp.Send{})
+		if !waitUntil(func() bool { return atomic.LoadInt32(&ga.entered) == 1 }) {
+			return "setup-failed"
+		}
+		ha, hb := &countHook{}, &countHook{}
+		res, _ := resultWithCaps(ha, hb)
+		fa := make(chan struct{})
+		go func() { a.Fulfill(res); close(fa) }()
+		time.Sleep(20 * time.Millisecond) // A is pending resolution now
+		jb := make(chan struct{})
+		go func() { b.Join(a.Answer()); close(jb) }()
+		time.Sleep(20 * time.Millisecond)
+		ga.gate <- struct{}{} // the call yields
+		<-fa
+		<-jb
+		ctx, cancel := context.WithTimeout(context.Background(), 2*time.Second)
+		defer cancel()
+		b.Answer().PipelineSend(ctx, pathOps(true), capnp.Send{})
+		if atomic.LoadInt32(&ha.n) != 1 {
+			return "call-on-joined-promise-not-delivered"
+		}
+		cl := make(chan struct{})
+		go func() { b.Answer().Field(0, nil).Client(); close(cl) }()
+		select {
+		case <-cl:
+		case <-time.After(2 * time.Second):
+			return "Client()-on-joined-promise-blocks"
+		}
+		a.ReleaseClients()
+		b.ReleaseClients()
+		return "ok"
+	})
+}
+
+// execJoinChain: pc joins pb, then pb joins pa (inside-out); a pipelined client handed out by pc must stay usable
+// until every promise of the chain has released its clients.
+func execJoinChain() string {
+	return timed(6*time.Second, func() string {
+		pa := capnp.NewPromise(capnp.Method{}, &recCaller{})
+		pb := capnp.NewPromise(capnp.Method{}, &recCaller{})
+		pcc := capnp.NewPromise(capnp.Method{}, &recCaller{})
+		c := pcc.Answer().Field(0, nil).Client()
+		pcc.Join(pb.Answer())
+		pb.Join(pa.Answer())
+		ha, hb := &countHook{}, &countHook{}
+		res, _ := resultWithCaps(ha, hb)
+		pa.Fulfill(res)
+		pb.ReleaseClients()
+		pcc.ReleaseClients()
+		c.SendCall(context.Background(), capnp.Send{})
+		if atomic.LoadInt32(&ha.n) != 1 {
+			return "pipelined-client-released-before-the-last-ReleaseClients"
+		}
+		pa.ReleaseClients()
+		return "ok"
+	})
+}
 
 func genC11(rec *lib.Rec, r *lib.Rng, thorough bool) {
 	if Shard == 0 {
 		rec.Op("S", "promise proxyrace", true)
+		rec.Op("S", "promise joinpending", true)
+		rec.Op("S", "promise joinchain", true)
 		for _, pcl := range []string{"0", "1"} {
 			for cc := 0; cc <= 3; cc++ {
 				rec.Op("S", "promise join "+pcl+" "+strconv.Itoa(cc), true)
